@@ -314,11 +314,16 @@ type fsFault struct {
 	Target int // which operation of the case it is armed in (meaning is the harness's)
 	// Stall > 0: no error; each of the Len steps takes this long instead (a stalled disk)
 	Stall time.Duration
+	// ReadOpens > 0: instead, that many opens of existing files for reading fail with EMFILE
+	ReadOpens int
 }
 
 func (f fsFault) String() string {
 	if !f.On {
 		return "no disk fault"
+	}
+	if f.ReadOpens > 0 {
+		return fmt.Sprintf("out of file descriptors: the next %d open-for-reading calls fail with EMFILE, from operation %d on", f.ReadOpens, f.Target)
 	}
 	if f.Stall > 0 {
 		return fmt.Sprintf("disk stall: %d step(s) take %v each, %d steps into operation %d", f.Len, f.Stall, f.Delta, f.Target)
@@ -335,6 +340,10 @@ func genFSFault(w *simrt.Choices, nTargets int) fsFault {
 		return fsFault{}
 	}
 	f := fsFault{On: true, Delta: w.Choose(14), Len: []int{1, 1, 1, 2, 4, 30}[w.Choose(6)], NoSpc: w.Choose(2) == 0, Target: w.Choose(nTargets)}
+	if w.Choose(6) == 0 {
+		f.ReadOpens = 1 + w.Choose(3)
+		return f
+	}
 	if w.Choose(4) == 0 {
 		f.Stall = []time.Duration{200 * time.Millisecond, 2 * time.Second, 7 * time.Second}[w.Choose(3)]
 		if f.Len > 4 {
@@ -354,6 +363,13 @@ func (f fsFault) arm(s *simrt.Sim) (disarm func() int) {
 		return func() int { return 0 }
 	}
 	before := fsys.Fired
+	if f.ReadOpens > 0 {
+		fsys.FailNextReadOpens, fsys.ReadErr = f.ReadOpens, syscall.EMFILE
+		return func() int {
+			fsys.FailNextReadOpens = 0
+			return fsys.Fired - before
+		}
+	}
 	if f.Stall > 0 {
 		fsys.SlowAt, fsys.SlowLen, fsys.SlowBy = fsys.Steps+1+f.Delta, f.Len, f.Stall
 		return func() int {
